@@ -243,7 +243,13 @@ def member_texts():
                      st.tuples(st.sampled_from(["", " ", "  ", "\t"]), st.sampled_from(["+", "-"]), hh, st.one_of(st.just(""), mm.map(lambda m: ":" + m))).map("".join))
     sep = st.sampled_from(["T", "t", " ", "  ", "\t", "", "_"])
     stamp = st.tuples(date, sep, hh, mm, mm, frac, zone).map(lambda t: "%s%s%s:%s:%s%s%s" % t)
-    member = st.one_of(dec, octal, binary, hexa, sexa, flt, flt, sexaf, special, special, date, stamp, stamp, digits)
+    # non-ASCII look-alikes: digits for which \\d / isdigit() / int() would say yes, full-width and dotted letters for which
+    # lower()/upper()/casefold() would say yes - every one of them is a string under the YAML 1.1 rules
+    lookalike = st.sampled_from(["\uff11\uff12", "\u0661\u0662", "1\uff12", "0x\uff11", "1.\uff15", "\uff12001-01-01", "2001-01-0\u0661", "\uff39\uff25\uff33",
+                                 "\uff54\uff52\uff55\uff45", "tru\uff45", "nul\u217c", "\u0130nf", ".\u0131nf", ".\u0130NF", "\xb2", "1\xb2", "\xbd", "1:\u0663\u0660",
+                                 "\u2460", "1e\u0661", "\u06f1\u06f2", "1_\u0967", "o\uff4e", "\uff4f\uff46\uff46", "~\u200b", "\u200b~", "nu\u200bll", "1\u200b2",
+                                 "\u221e", "-\u221e", "\u2212" + "1", "\uff0d1", "\uff0b1", "1\uff0e5", "1\u066b5", "\uff1c\uff1c", "\uff1d"])
+    member = st.one_of(dec, octal, binary, hexa, sexa, flt, flt, sexaf, special, special, date, stamp, stamp, digits, lookalike)
 
     def edit(t):
         s, op, pos, ch = t
